@@ -62,18 +62,31 @@ def openBody (asn hold rid : Nat) (caps : List Cap) : Bytes :=
   if caps.isEmpty then openFixed asn hold rid ++ [0]
   else openFixed asn hold rid ++ [(caps.flatMap capBytes).length + 2, 2, (caps.flatMap capBytes).length] ++ caps.flatMap capBytes
 
+theorem maxLen_ge (c : Codec) : 4096 ≤ c.maxLen := by
+  unfold Codec.maxLen; split <;> omega
+
+theorem openBody_length_le (asn hold rid : Nat) (caps : List Cap) :
+    (openBody asn hold rid caps).length ≤ 13 + (caps.flatMap capBytes).length := by
+  unfold openBody openFixed
+  split <;> simp <;> omega
+
 theorem doEncode_open (p : Profile) (c : Codec) (asn hold rid : Nat) (caps : List Cap) (es : List Entry)
     (h : ∀ x ∈ caps, capOk x = true) (hs : (caps.flatMap capBytes).length + 2 < 256) :
     doEncode p c (.open asn hold rid caps) es = .ok (frame 1 (openBody asn hold rid caps), 0) := by
-  unfold doEncode openBody openFixed
+  have hsz : (frame 1 (openBody asn hold rid caps)).length ≤ c.maxLen := by
+    have := maxLen_ge c
+    have := openBody_length_le asn hold rid caps
+    rw [frame_length]; omega
+  refine doEncode_of_body ?_ hsz
+  unfold doEncodeBody openBody openFixed
   by_cases he : caps.isEmpty = true
   · simp [he]
   · have he' : caps.isEmpty = false := by simpa using he
     simp only [he', Bool.false_eq_true, if_false]
-    rw [encodeCaps_eq p caps 0 h (by omega)]
+    rw [encodeCaps_eq caps 0 h]
     simp only [Out.bind_ok, Nat.zero_add]
-    rw [addU8_ok p _ _ (by omega)]
-    simp only [Out.bind_ok, Out.pure_eq]
+    rw [if_neg (by omega)]
+    simp only [Out.pure_eq]
 
 theorem openBody_parts (t hold rid : Nat) (tail : Bytes) :
     let b := [4] ++ be16 t ++ be16 hold ++ be32 rid ++ tail
